@@ -23,11 +23,11 @@ theorem write_core {s s' : State} (hi : Inv s) {b k c : Bytes} {t ds : Tree} {p 
     simp only [habs, Option.getD_some]
   · exact inv_write_buckets hi ht hp hds hnd hb'
 
-/-- `copy_object` may be compared with the store: names agree and side-file names fit; for admissible names the source
-    bucket exists [else fs:missing-bucket-reported-as-missing-key] and the source is not a leftover directory; when the
-    copy can happen, source and destination differ [fs:copy-onto-itself-destroys-object], the destination path is free,
-    the destination has no metadata file the source lacks [fs:stale-metadata-after-copy] and both have the same recorded
-    checksums [fs:stale-checksum-after-copy] -/
+/-- `copy_object` may be compared with the store (a copy of an object onto itself included): names agree and side-file
+    names fit; for admissible names the source bucket exists [else fs:missing-bucket-reported-as-missing-key] and the source
+    is not a leftover directory; when the copy can happen the destination path is free, the destination has no metadata
+    file the source lacks [fs:stale-metadata-after-copy] and both have the same recorded checksums
+    [fs:stale-checksum-after-copy] -/
 def CopyOk (s : State) (sb sk db dk : Bytes) : Prop :=
   NameOk sb ∧ CanonKey sk ∧ NameOk db ∧ CanonKey dk ∧
   sideTooLong sb sk false = false ∧ sideTooLong db dk false = false ∧
@@ -44,10 +44,76 @@ def CopyOk (s : State) (sb sk db dk : Bytes) : Prop :=
           match s.tree db with
           | none => True
           | some dt =>
-            (sb, sk) ≠ (db, dk) ∧ WriteOk dt dp ∧
+            WriteOk dt dp ∧
             (alLookup (sb, sk) s.metas ≠ none ∨ alLookup (db, dk) s.metas = none) ∧
             (alLookup (db, dk) s.infos).getD {} = (alLookup (sb, sk) s.infos).getD {}
     | _, _ => True)
+
+theorem alInsert_same {α β : Type} [DecidableEq α] {k : α} {v : β} {l : List (α × β)} (h : alLookup k l = some v) :
+    alInsert k v l = l := by
+  induction l with
+  | nil => simp at h
+  | cons e t ih =>
+    obtain ⟨a, b⟩ := e
+    by_cases h' : a = k
+    · subst h'
+      simp only [alLookup_cons, if_true, Option.some.injEq] at h
+      subst h
+      simp [alInsert]
+    · simp only [alLookup_cons, h', if_false] at h
+      simp only [alInsert, h', if_false, ih h]
+
+/-- `create_dir_all` below an existing bucket, when no prefix is a file: directories are appended -/
+theorem mkdirAll_ok (s : State) (b : Bytes) (q : Path) (t : Tree) (ht : s.tree b = some t) (hnd : keysNodup t)
+    (hq : ∀ x ∈ prefixes q, isFile (t.node x) = false) :
+    ∃ ds : Tree, (∀ e ∈ ds, e.2 = Node.dir ∧ e.1 ∈ prefixes q) ∧ keysNodup (t ++ ds) ∧
+      s.mkdirAll b q = some { s with buckets := alInsert b (t ++ ds) s.buckets } := by
+  obtain ⟨ds, h1, h2, h3⟩ := addDirs_spec (prefixes q) t hnd
+  refine ⟨ds, h2, h3, ?_⟩
+  have hany : (prefixes q).any (fun x => isFile (t.node x)) = false := by
+    rw [List.any_eq_false]
+    intro x hx
+    simp [hq x hx]
+  unfold State.mkdirAll
+  rw [ht]
+  simp only [Option.getD_some, mkdirAll_eq, hany, Bool.false_eq_true, if_false, h1]
+  rfl
+
+/-- directories appended to a tree do not show in the abstraction, and keep the invariant -/
+theorem dirs_core {s s' : State} (hi : Inv s) {b : Bytes} {t ds : Tree} {q : Path}
+    (ht : s.tree b = some t) (hqok : ∀ x ∈ prefixes q, PathOk x)
+    (hds : ∀ e ∈ ds, e.2 = Node.dir ∧ e.1 ∈ prefixes q) (hnd : keysNodup (t ++ ds))
+    (hb : s'.buckets = alInsert b (t ++ ds) s.buckets) (hm : s'.metas = s.metas) (hin : s'.infos = s.infos)
+    (hu : s'.uploads = s.uploads) (hpa : s'.parts = s.parts) (hum : s'.upMetas = s.upMetas)
+    (hiss : s'.issued = s.issued) : abs s' = abs s ∧ Inv s' := by
+  have hmem := tree_mem ht
+  constructor
+  · apply Store.ext'
+    · rw [abs_buckets_congr hm hin, hb, alInsert_map_val (fun b t => absTree s b t)]
+      rw [absTree_append_dirs s b t ds fun e he => (hds e he).1, ← abs_buckets]
+      apply alInsert_same
+      have := abs_bucket s b
+      unfold Store.bucket at this
+      rw [this, ht]; rfl
+    · exact abs_uploads_congr hu hum hpa
+    · exact hiss
+  · refine ⟨hb ▸ keysNodup_alInsert hi.bnd, ?_, ?_, hm ▸ hi.metaOk, hu ▸ hi.und, hpa ▸ hi.pnd, ?_, ?_, ?_⟩
+    · rw [hb]
+      intro e he
+      rcases alInsert_mem he with he | he
+      · subst he; exact hnd
+      · exact hi.tnd e he
+    · rw [hb]
+      intro e he x hx
+      rcases alInsert_mem he with he | he
+      · subst he
+        rcases List.mem_append.mp hx with hx | hx
+        · exact hi.paths _ hmem _ hx
+        · exact hqok _ (hds x hx).2
+      · exact hi.paths e he x hx
+    · rw [hu, hiss]; exact hi.upIds
+    · rw [hpa, hiss]; exact hi.partIds
+    · rw [hum, hiss]; exact hi.upMetaIds
 
 theorem copy_refines (H : Hashes) (dl : Nat) {s : State} (hi : Inv s) {sb sk db dk : Bytes}
     (hg : CopyOk s sb sk db dk) :
@@ -106,72 +172,101 @@ theorem copy_refines (H : Hashes) (dl : Nat) {s : State} (hi : Inv s) {sb sk db 
                 | some dt =>
                   rw [hdt] at hmain
                   simp only at hmain
-                  obtain ⟨hne, hw, hmeta, hcks⟩ := hmain
-                  have hh : alHas db (abs s).buckets = true := by
-                    rw [abs_alHas]; unfold State.tree at hdt; simp [alHas, hdt]
-                  have hdmem := tree_mem hdt
-                  -- source and destination are different files
-                  have hpne : ¬ (sb = db ∧ sp = dp) := by
-                    rintro ⟨h1, h2⟩
-                    apply hne
-                    rw [h1, ← hscanon, ← hdcanon, h2]
-                  obtain ⟨ds, hds, hnd, hcommit⟩ :=
-                    commitFile_ok s db dp c dt (by rw [hdt]; rfl) hw (hi.tnd _ hdmem) hdp
-                  have hkne : ¬ (sb = db ∧ sk = dk) := by
-                    rintro ⟨h1, h2⟩; exact hne (by rw [h1, h2])
-                  have hspec : StoreSpec.step H (abs s) (.copyObject sb sk db dk) =
-                      ((abs s).setObj db dk ⟨c, absMeta s sb sk, (alLookup (sb, sk) s.infos).getD {}⟩,
-                        .copied (some (etagOf H c))) := by
-                    simp [StoreSpec.step, hsbo, hsko, hdbo, hdko, hsabs, hslook, hh, hkne]
-                  cases hsm : alLookup (sb, sk) s.metas with
-                  | none =>
-                    have hdm : alLookup (db, dk) s.metas = none := by
-                      rcases hmeta with h | h
-                      · exact absurd hsm h
-                      · exact h
-                    have hstep : step H dl s (.copyObject sb sk db dk) =
-                        ({ s with buckets := alInsert db (alInsert dp (.file c) (dt ++ ds)) s.buckets },
+                  obtain ⟨hw, hmeta, hcks⟩ := hmain
+                  by_cases hne : (sb, sk) = (db, dk)
+                  · -- the object onto itself: nothing is copied, nothing changes
+                    simp only [Prod.mk.injEq] at hne
+                    obtain ⟨rfl, rfl⟩ := hne
+                    have hpp : sp = dp := by rw [hskp] at hdkp; exact Option.some.inj hdkp
+                    subst hpp
+                    rw [hst] at hdt
+                    have hdt' : st = dt := Option.some.inj hdt
+                    subst hdt'
+                    obtain ⟨ds, hds, hnd, hmk⟩ := mkdirAll_ok s sb sp.dropLast st hst (hi.tnd _ (tree_mem hst)) hw.1
+                    have hstep : step H dl s (.copyObject sb sk sb sk) =
+                        ({ s with buckets := alInsert sb (st ++ ds) s.buckets }, .copied (some (etagOf H c))) := by
+                      simp [step, objPath, hsbd, hskp, hsnode, hsn, hst, hmk]
+                    have hhas : alHas sb (abs s).buckets = true := by
+                      rw [abs_alHas]; unfold State.tree at hst; simp [alHas, hst]
+                    have hspec : StoreSpec.step H (abs s) (.copyObject sb sk sb sk) =
+                        ((abs s).setObj sb sk ⟨c, absMeta s sb sk, (alLookup (sb, sk) s.infos).getD {}⟩,
                           .copied (some (etagOf H c))) := by
-                      simp [step, objPath, hsbd, hskp, hdbd, hdkp, hsnode, hsn, hdt, hpne, hcommit, hsshort, hsm]
+                      simp [StoreSpec.step, hsbo, hsko, hsabs, hslook, hhas]
                     rw [hstep, hspec]
-                    obtain ⟨h1, i1, i2, i3⟩ := write_core (s' := { s with buckets := alInsert db (alInsert dp (.file c) (dt ++ ds)) s.buckets }) hi hdt hdp hdcanon hw.2 hds hnd rfl
-                      (fun _ _ => rfl) (fun _ _ => rfl) hi.metaOk
-                    refine ⟨rfl, ?_, ⟨i1, i2, i3, hi.metaOk, hi.und, hi.pnd, hi.upIds, hi.partIds, hi.upMetaIds⟩⟩
-                    apply Store.ext'
-                    · rw [h1]
-                      have e1 : absMeta { s with buckets := alInsert db (alInsert dp (.file c) (dt ++ ds)) s.buckets } db dk = absMeta s sb sk := by
-                        simp [absMeta, hsm, hdm]
-                      rw [e1]
-                      show ((abs s).setObj db dk ⟨c, absMeta s sb sk, (alLookup (db, dk) s.infos).getD {}⟩).buckets = _
-                      rw [hcks]
-                    · exact abs_uploads_congr rfl rfl rfl
-                    · rfl
-                  | some m =>
-                    have hmgood : m ≠ MetaFile.corrupt := hi.metaOk _ (alLookup_mem hsm)
-                    have hstep : step H dl s (.copyObject sb sk db dk) =
-                        ({ s with buckets := alInsert db (alInsert dp (.file c) (dt ++ ds)) s.buckets,
-                                  metas := alInsert (db, dk) m s.metas },
+                    obtain ⟨h1, h2⟩ := dirs_core (s' := { s with buckets := alInsert sb (st ++ ds) s.buckets }) hi hst
+                      (fun x hx => (hsp.prefix_dropLast hx).1) hds hnd rfl rfl rfl rfl rfl rfl rfl
+                    refine ⟨rfl, ?_, h2⟩
+                    rw [h1]
+                    -- writing back the object that is there is the identity on the store
+                    unfold Store.setObj
+                    simp only [hsabs, Option.getD_some]
+                    rw [alInsert_same hslook]
+                    have hb : alLookup sb (abs s).buckets = some (absTree s sb st) := hsabs
+                    rw [alInsert_same hb]
+                  · skip
+                    have hh : alHas db (abs s).buckets = true := by
+                      rw [abs_alHas]; unfold State.tree at hdt; simp [alHas, hdt]
+                    have hdmem := tree_mem hdt
+                    -- source and destination are different files
+                    have hpne : ¬ (sb = db ∧ sp = dp) := by
+                      rintro ⟨h1, h2⟩
+                      apply hne
+                      rw [h1, ← hscanon, ← hdcanon, h2]
+                    obtain ⟨ds, hds, hnd, hcommit⟩ :=
+                      commitFile_ok s db dp c dt (by rw [hdt]; rfl) hw (hi.tnd _ hdmem) hdp
+                    have hspec : StoreSpec.step H (abs s) (.copyObject sb sk db dk) =
+                        ((abs s).setObj db dk ⟨c, absMeta s sb sk, (alLookup (sb, sk) s.infos).getD {}⟩,
                           .copied (some (etagOf H c))) := by
-                      simp [step, objPath, hsbd, hskp, hdbd, hdkp, hsnode, hsn, hdt, hpne, hcommit, hsshort, hsm,
-                        hdshort, hne]
-                    rw [hstep, hspec]
-                    have hmok : ∀ e ∈ alInsert (db, dk) m s.metas, e.2 ≠ MetaFile.corrupt := by
-                      intro e he
-                      rcases alInsert_mem he with he | he
-                      · subst he; exact hmgood
-                      · exact hi.metaOk e he
-                    obtain ⟨h1, i1, i2, i3⟩ := write_core (s' := { s with buckets := alInsert db (alInsert dp (.file c) (dt ++ ds)) s.buckets, metas := alInsert (db, dk) m s.metas }) hi hdt hdp hdcanon hw.2 hds hnd rfl
-                      (fun x hx => alLookup_alInsert_ne hx _ _) (fun _ _ => rfl) hmok
-                    refine ⟨rfl, ?_, ⟨i1, i2, i3, hmok, hi.und, hi.pnd, hi.upIds, hi.partIds, hi.upMetaIds⟩⟩
-                    apply Store.ext'
-                    · rw [h1]
-                      have e1 : absMeta { s with buckets := alInsert db (alInsert dp (.file c) (dt ++ ds)) s.buckets, metas := alInsert (db, dk) m s.metas } db dk = absMeta s sb sk := by
-                        simp [absMeta, hsm, alLookup_alInsert_self]
-                      rw [e1]
-                      show ((abs s).setObj db dk ⟨c, absMeta s sb sk, (alLookup (db, dk) s.infos).getD {}⟩).buckets = _
-                      rw [hcks]
-                    · exact abs_uploads_congr rfl rfl rfl
-                    · rfl
+                      simp [StoreSpec.step, hsbo, hsko, hdbo, hdko, hsabs, hslook, hh]
+                    cases hsm : alLookup (sb, sk) s.metas with
+                    | none =>
+                      have hdm : alLookup (db, dk) s.metas = none := by
+                        rcases hmeta with h | h
+                        · exact absurd hsm h
+                        · exact h
+                      have hstep : step H dl s (.copyObject sb sk db dk) =
+                          ({ s with buckets := alInsert db (alInsert dp (.file c) (dt ++ ds)) s.buckets },
+                            .copied (some (etagOf H c))) := by
+                        simp [step, objPath, hsbd, hskp, hdbd, hdkp, hsnode, hsn, hdt, hpne, hcommit, hsshort, hsm]
+                      rw [hstep, hspec]
+                      obtain ⟨h1, i1, i2, i3⟩ := write_core (s' := { s with buckets := alInsert db (alInsert dp (.file c) (dt ++ ds)) s.buckets }) hi hdt hdp hdcanon hw.2 hds hnd rfl
+                        (fun _ _ => rfl) (fun _ _ => rfl) hi.metaOk
+                      refine ⟨rfl, ?_, ⟨i1, i2, i3, hi.metaOk, hi.und, hi.pnd, hi.upIds, hi.partIds, hi.upMetaIds⟩⟩
+                      apply Store.ext'
+                      · rw [h1]
+                        have e1 : absMeta { s with buckets := alInsert db (alInsert dp (.file c) (dt ++ ds)) s.buckets } db dk = absMeta s sb sk := by
+                          simp [absMeta, hsm, hdm]
+                        rw [e1]
+                        show ((abs s).setObj db dk ⟨c, absMeta s sb sk, (alLookup (db, dk) s.infos).getD {}⟩).buckets = _
+                        rw [hcks]
+                      · exact abs_uploads_congr rfl rfl rfl
+                      · rfl
+                    | some m =>
+                      have hmgood : m ≠ MetaFile.corrupt := hi.metaOk _ (alLookup_mem hsm)
+                      have hstep : step H dl s (.copyObject sb sk db dk) =
+                          ({ s with buckets := alInsert db (alInsert dp (.file c) (dt ++ ds)) s.buckets,
+                                    metas := alInsert (db, dk) m s.metas },
+                            .copied (some (etagOf H c))) := by
+                        simp [step, objPath, hsbd, hskp, hdbd, hdkp, hsnode, hsn, hdt, hpne, hcommit, hsshort, hsm,
+                          hdshort]
+                      rw [hstep, hspec]
+                      have hmok : ∀ e ∈ alInsert (db, dk) m s.metas, e.2 ≠ MetaFile.corrupt := by
+                        intro e he
+                        rcases alInsert_mem he with he | he
+                        · subst he; exact hmgood
+                        · exact hi.metaOk e he
+                      obtain ⟨h1, i1, i2, i3⟩ := write_core (s' := { s with buckets := alInsert db (alInsert dp (.file c) (dt ++ ds)) s.buckets, metas := alInsert (db, dk) m s.metas }) hi hdt hdp hdcanon hw.2 hds hnd rfl
+                        (fun x hx => alLookup_alInsert_ne hx _ _) (fun _ _ => rfl) hmok
+                      refine ⟨rfl, ?_, ⟨i1, i2, i3, hmok, hi.und, hi.pnd, hi.upIds, hi.partIds, hi.upMetaIds⟩⟩
+                      apply Store.ext'
+                      · rw [h1]
+                        have e1 : absMeta { s with buckets := alInsert db (alInsert dp (.file c) (dt ++ ds)) s.buckets, metas := alInsert (db, dk) m s.metas } db dk = absMeta s sb sk := by
+                          simp [absMeta, hsm, alLookup_alInsert_self]
+                        rw [e1]
+                        show ((abs s).setObj db dk ⟨c, absMeta s sb sk, (alLookup (db, dk) s.infos).getD {}⟩).buckets = _
+                        rw [hcks]
+                      · exact abs_uploads_congr rfl rfl rfl
+                      · rfl
       · simp [step, StoreSpec.step, objPath, hsbd, hskp, hsbo, hsko, hdbd, hdbo, hi]
   · simp [step, StoreSpec.step, objPath, hsbd, hsbo, hi]
 
